@@ -6,11 +6,11 @@ HARNESSES = wc.HARNESSES
 LEVEL_WITHOUT_PROOF = "other"
 
 CFG = dict(
-    mix=dict(create=4, assign=2, remove=3, destroynow=3, destroy=2, update=1, clone=1, sremove=1, query=6, cleararch=1, lock=1, unlock=1, dump=1),
+    mix=dict(create=4, assign=2, remove=3, destroynow=3, destroy=2, update=1, clone=1, sassign=1, sremove=2, query=6, cleararch=1, lock=1, unlock=1, dump=1),
     corpus=[x for x in "C09,C05".split(",")],
     n_quick=500, n_thorough=6000, len=(8, 45),
-    gen=dict(lock_bias=0.15, malformed=0.5, ndeps=1),
-    what="malformed stream: every issued handle, null, foreign-world and random 64-bit patterns presented to every checked entry point, immediate and deferred",
+    gen=dict(lock_bias=0.15, malformed=0.5, ndeps=1, shared_frac=0.5, locked_immediate=True),
+    what="malformed stream: every issued handle, null, foreign-world and random 64-bit patterns presented to every checked entry point, immediate and deferred; never-deferred guarded calls (removeSharedComponent, clone) on dead handles inside locked sections, half of the histories with shared components",
 )
 
 
